@@ -600,6 +600,28 @@ func (s *sim) tick() string {
 	return "to=" + sortedIDs(to, bad) + " log=" + joinOr(evs)
 }
 
+// idle: real time passes (at least one TTL watcher scan: its sleeps never exceed the TTL), the mock
+// clock stands still; whatever the watcher rejects meanwhile is reported.
+func (s *sim) idle(w []string) string {
+	ms, ok := kvI(w, "ms")
+	if !ok || s.real || ms < 0 || ms > 5000 {
+		return "bad-op"
+	}
+	var to []*reqRec
+	var bad []string
+	s.pump(func() bool { return false }, time.Duration(ms)*time.Millisecond, func(r *reqRec) {
+		if r.verdict == "blocked" {
+			to = append(to, r)
+		} else {
+			bad = append(bad, fmt.Sprintf("!%s:%d", r.verdict, r.id))
+		}
+	})
+	if !s.awaitRemovals() {
+		bad = append(bad, "stuck-removal")
+	}
+	return "to=" + sortedIDs(to, bad)
+}
+
 func (s *sim) flush() string {
 	n := 0
 	for _, r := range s.reqs {
@@ -739,6 +761,8 @@ func runCase(ops []string, emit func(string)) {
 			} else {
 				emit(s.tick())
 			}
+		case "idle":
+			emit(s.idle(w))
 		case "hold-remove":
 			if s.real {
 				emit("bad-op")
@@ -767,7 +791,12 @@ func runCase(ops []string, emit func(string)) {
 	}
 }
 
+// Every case runs in a child process (a crash of the processor is then an observation, not the end
+// of the run); VERIF_C06_INPROC=1 runs cases without `drain` in-process (debugging).
 func needsChild(ops []string) bool {
+	if os.Getenv("VERIF_C06_INPROC") == "" {
+		return true
+	}
 	for _, op := range ops {
 		if strings.HasPrefix(op, "drain") {
 			return true
@@ -787,6 +816,12 @@ func runInChild(ops []string) []string {
 	err := cmd.Run()
 	var outs []string
 	for _, l := range strings.Split(out.String(), "\n") {
+		if strings.HasPrefix(l, "#lat ") {
+			if ms, e := strconv.ParseInt(l[5:], 10, 64); e == nil && time.Duration(ms)*time.Millisecond > maxLatAll {
+				maxLatAll = time.Duration(ms) * time.Millisecond
+			}
+			continue
+		}
 		if l != "" {
 			outs = append(outs, l)
 		}
@@ -801,7 +836,17 @@ func runInChild(ops []string) []string {
 		}
 		if strings.Contains(errb.String(), "negative WaitGroup counter") {
 			what = "negative-waitgroup"
-		} else if os.Getenv("VERIF_DEBUG") != "" {
+		} else if i := strings.Index(errb.String(), "panic: "); i >= 0 {
+			msg := errb.String()[i+7:]
+			if j := strings.IndexByte(msg, '\n'); j >= 0 {
+				msg = msg[:j]
+			}
+			if len(msg) > 60 {
+				msg = msg[:60]
+			}
+			what = proto.Enc(msg)
+		}
+		if os.Getenv("VERIF_DEBUG") != "" {
 			fmt.Fprintln(os.Stderr, errb.String())
 		}
 		outs = append(outs, "panic "+what)
@@ -824,6 +869,7 @@ func childMain() {
 	runCase(ops, func(a string) {
 		os.Stdout.WriteString(a + "\n")
 	})
+	os.Stdout.WriteString(fmt.Sprintf("#lat %d\n", maxLatAll.Milliseconds()))
 }
 
 func execCase(c proto.Case, o *proto.Out) []string {
@@ -846,6 +892,10 @@ func execCase(c proto.Case, o *proto.Out) []string {
 		case a == "blocked":
 			refused++
 			o.Count("verdict-no-slot")
+		case strings.HasPrefix(a, "to=") && w[0] == "idle":
+			if a != "to=-" {
+				o.Count("idle-with-timeouts")
+			}
 		case strings.HasPrefix(a, "to="):
 			aw := strings.Fields(a)
 			if t, _ := proto.KV(aw, "to"); t != "-" {
@@ -919,9 +969,11 @@ func genSequential(r *prng.R, long bool) []string {
 	size := r.Range(1, 4)
 	ttl := 2
 	nops := r.Range(8, 22)
+	arriveP := 30
 	if long {
 		ttl = 1
-		nops = r.Range(18, 34)
+		nops = r.Range(24, 40)
+		arriveP = 14
 	}
 	max := r.Range(0, 3)
 	if r.Chance(70) {
@@ -937,7 +989,7 @@ func genSequential(r *prng.R, long bool) []string {
 		if !long && ticks >= 18 {
 			break
 		}
-		if burst > 0 || r.Chance(30) {
+		if burst > 0 || r.Chance(arriveP) {
 			if burst == 0 {
 				burst = r.Range(1, 4)
 			}
@@ -1012,6 +1064,21 @@ func genHold(r *prng.R, withDrain bool) []string {
 	return ops
 }
 
+// removal held back across a time-out: the rejected request stays in the watch list and in the heap;
+// when the quota window rolls over the loop pops it and must skip it (StartProcessing arbitrates)
+func genHoldExpiry(r *prng.R) []string {
+	win := r.Range(2, 3)
+	ops := []string{genCfg(r, r.Range(2, 3), 1, 1, win), "hold-remove",
+		"arrive id=0 prio=0", fmt.Sprintf("arrive id=1 prio=%d", r.Intn(2))}
+	for t := win*10 + r.Range(2, 4); t > 0; t-- {
+		ops = append(ops, "tick")
+	}
+	if r.Bool() {
+		ops = append(ops, "flush-remove", "arrive id=2 prio=0", "tick")
+	}
+	return ops
+}
+
 // plain shutdown with waiters
 func genDrain(r *prng.R) []string {
 	ops := []string{genCfg(r, r.Range(1, 4), 2, r.Range(0, 1), 3)}
@@ -1024,6 +1091,45 @@ func genDrain(r *prng.R) []string {
 		}
 	}
 	return append(ops, "drain")
+}
+
+// TTL boundary: the watcher is given real time to scan at the instant now == expireAt (nothing may
+// expire: `After` is strict) and one tick later (everything queued at that instant expires).
+func genBoundary(r *prng.R) []string {
+	ops := []string{genCfg(r, r.Range(1, 3), 1, r.Range(0, 1), 3)}
+	id := 0
+	for k := r.Range(1, 2); k > 0; k-- {
+		ops = append(ops, fmt.Sprintf("arrive id=%d prio=%s", id, genPrio(r, 2)))
+		id++
+	}
+	for t := 0; t < 10; t++ {
+		ops = append(ops, "tick")
+		if t == 4 && r.Chance(50) {
+			ops = append(ops, fmt.Sprintf("arrive id=%d prio=0", id))
+			id++
+		}
+	}
+	return append(ops, "idle ms=1150", "tick", "tick")
+}
+
+// same priority, quota 1 per window, pairs of arrivals: the refused head is pushed back (F06a class)
+func genFifo(r *prng.R) []string {
+	ops := []string{genCfg(r, r.Range(2, 4), 2, 1, 1)}
+	id := 0
+	for t := r.Range(0, 2); t > 0; t-- {
+		ops = append(ops, "tick")
+	}
+	for k := r.Range(2, 4); k > 0; k-- {
+		ops = append(ops, fmt.Sprintf("arrive id=%d prio=1", id))
+		id++
+		if r.Chance(40) {
+			ops = append(ops, "tick")
+		}
+	}
+	for t := r.Range(8, 16); t > 0; t-- {
+		ops = append(ops, "tick")
+	}
+	return ops
 }
 
 // wall-clock TTL measurement (a TEST of (T), real clock, quota that admits nothing)
@@ -1050,9 +1156,9 @@ func malformed(r *prng.R) []string {
 }
 
 func gen(r *prng.R, f proto.Flags, emit func(proto.Case)) {
-	nShort, nLong, nOverlap, nHold, nDrain, nWall, nBad := 26, 12, 6, 6, 5, 1, 4
+	nShort, nLong, nOverlap, nHold, nDrain, nWall, nBad, nBound, nFifo, nHoldExp := 26, 12, 6, 6, 5, 1, 4, 2, 6, 2
 	if f.Tier == "thorough" {
-		nShort, nLong, nOverlap, nHold, nDrain, nWall, nBad = 260, 100, 50, 50, 40, 4, 10
+		nShort, nLong, nOverlap, nHold, nDrain, nWall, nBad, nBound, nFifo, nHoldExp = 260, 100, 50, 50, 40, 4, 10, 12, 40, 12
 	}
 	id := 0
 	add := func(prefix string, ops []string) {
@@ -1076,8 +1182,17 @@ func gen(r *prng.R, f proto.Flags, emit func(proto.Case)) {
 		for k := 0; k < nBad; k++ {
 			add("m", malformed(r.Fork()))
 		}
+		for k := 0; k < nFifo; k++ {
+			add("f", genFifo(r.Fork()))
+		}
 		for k := 0; k < nLong; k++ {
 			add("l", genSequential(r.Fork(), true))
+		}
+		for k := 0; k < nHoldExp; k++ {
+			add("x", genHoldExpiry(r.Fork()))
+		}
+		for k := 0; k < nBound; k++ {
+			add("b", genBoundary(r.Fork()))
 		}
 		for k := 0; k < nWall; k++ {
 			add("w", genWallClock(r.Fork()))
